@@ -54,8 +54,14 @@ func genC16Slice(t *rapid.T, cfg lsw.Config, m *lsw.GenModel, n int) []lsw.Op {
 			ops = append(ops, o)
 		case r < 72:
 			ops = append(ops, lsw.Op{K: "syncwait"})
-		case r < 88:
+		case r < 86:
 			ops = append(ops, lsw.Op{K: "compact", L: rapid.IntRange(1, cfg.Levels).Draw(t, "level")})
+		case r < 88:
+			if cfg.Levels >= 2 {
+				ops = append(ops, lsw.Op{K: "prune", L: rapid.IntRange(1, cfg.Levels-1).Draw(t, "pruneLevel"), A: rapid.SampledFrom([]int{30, 60, 100, 100}).Draw(t, "prunePct")})
+			} else {
+				ops = append(ops, lsw.Op{K: "syncwait"})
+			}
 		case r < 94:
 			ops = append(ops, lsw.Op{K: "snapshot"})
 		default:
@@ -66,10 +72,43 @@ func genC16Slice(t *rapid.T, cfg lsw.Config, m *lsw.GenModel, n int) []lsw.Op {
 	return ops
 }
 
+// genC16Ladder draws a slice that leaves the follower several levels behind: level-1 files, a level-2 file over
+// them, the covered level-1 files pruned (partly or completely), then newer level-1 files and a level-0 tail.
+func genC16Ladder(t *rapid.T, cfg lsw.Config) []lsw.Op {
+	var ops []lsw.Op
+	write := func() {
+		if rapid.Bool().Draw(t, "ladderUpd") {
+			ops = append(ops, lsw.Op{K: "update", T: 0, A: 0, B: rapid.IntRange(10, 100).Draw(t, "b")})
+		} else {
+			ops = append(ops, lsw.Op{K: "insert", T: 0, N: rapid.SampledFrom([]int{1, 3, 12}).Draw(t, "n"), S: rapid.IntRange(0, 2).Draw(t, "size")})
+		}
+		ops = append(ops, lsw.Op{K: "syncwait"})
+	}
+	l1 := func(n int) {
+		for r := 0; r < n; r++ {
+			for k := rapid.IntRange(1, 2).Draw(t, "ladderW"); k > 0; k-- {
+				write()
+			}
+			ops = append(ops, lsw.Op{K: "compact", L: 1})
+		}
+	}
+	l1(rapid.IntRange(2, 3).Draw(t, "ladderA"))
+	ops = append(ops, lsw.Op{K: "compact", L: 2})
+	if cfg.Levels >= 3 && rapid.Bool().Draw(t, "ladderL3") {
+		ops = append(ops, lsw.Op{K: "compact", L: 3}, lsw.Op{K: "prune", L: 2, A: 100})
+	}
+	ops = append(ops, lsw.Op{K: "prune", L: 1, A: rapid.SampledFrom([]int{40, 70, 100, 100}).Draw(t, "prunePct")})
+	l1(rapid.IntRange(1, 2).Draw(t, "ladderB"))
+	for k := rapid.IntRange(1, 3).Draw(t, "ladderTail"); k > 0; k-- {
+		write()
+	}
+	return ops
+}
+
 func genC16(t *rapid.T) c16Case {
 	cfg := lsw.GenConfig(t, false)
 	cfg.PageSize = rapid.SampledFrom([]int{512, 1024, 4096}).Draw(t, "ps")
-	cfg.Levels = rapid.IntRange(1, 2).Draw(t, "levels")
+	cfg.Levels = rapid.IntRange(1, 3).Draw(t, "levels")
 	cfg.L0RetNS = 1 // level-0 files disappear as soon as they are compacted: gaps must be bridged from higher levels
 	cfg.SmallCache = false
 	cfg.MaxSyncFr = rapid.SampledFrom([]int{0, 3}).Draw(t, "msf")
@@ -78,6 +117,9 @@ func genC16(t *rapid.T) c16Case {
 	nr := rapid.IntRange(2, 4).Draw(t, "rounds")
 	for i := 0; i < nr; i++ {
 		r := c16Round{Ops: genC16Slice(t, cfg, m, rapid.IntRange(3, 10).Draw(t, "n"))}
+		if i > 0 && cfg.Levels >= 2 && rapid.IntRange(0, 9).Draw(t, "ladder") < 4 {
+			r.Ops = append(genC16Ladder(t, cfg), lsw.Op{K: "syncwait"})
+		}
 		if rapid.IntRange(0, 2).Draw(t, "live") == 0 {
 			r.Live = genC16Slice(t, cfg, m, rapid.IntRange(2, 5).Draw(t, "nlive"))
 		}
@@ -155,6 +197,9 @@ func startFollower(w *lsw.World, out string, killAt int) *follower {
 		panic(fmt.Sprintf("harness: send follow: %v", err))
 	}
 	f.reply = make(chan drv.Reply, 1)
+	// do not return before the child has started the command: a SIGTERM sent earlier would hit a process that has not
+	// installed its handler yet
+	f.proc.WaitBegin()
 	go func() { f.reply <- f.proc.Wait() }()
 	return f
 }
@@ -206,7 +251,11 @@ func execC16(c c16Case) (res core.Result) {
 	out := filepath.Join(outDir, "f.db")
 	var lastSidecar ltx.TXID
 	bridged, killInApply, kills := false, false, 0
+	pruned := false
 	defer func() {
+		if pruned {
+			res.Labels = append(res.Labels, "lower-level-pruned")
+		}
 		if bridged {
 			res.Labels = append(res.Labels, "resume-bridged-missing-l0")
 		}
@@ -220,6 +269,21 @@ func execC16(c c16Case) (res core.Result) {
 	}()
 	runSlice := func(ops []lsw.Op) {
 		for _, o := range ops {
+			if o.K == "prune" {
+				// TXID retention on level o.L, as the snapshot-retention cascade does it, limited to what the next level
+				// up already holds (so that every TXID stays reachable): delete files that end before A% of that range
+				var top ltx.TXID
+				for _, f := range lsw.ListLTX(w.ReplicaDir) {
+					if f.Level == o.L+1 && f.Max > top {
+						top = f.Max
+					}
+				}
+				if top > 0 && w.DB != nil {
+					_ = w.DB.EnforceRetentionByTXID(w.Ctx(), o.L, 1+top*ltx.TXID(o.A)/100)
+					pruned = true
+				}
+				continue
+			}
 			if lsw.IsLSOp(o.K) {
 				w.LSStep(o)
 			} else {
@@ -324,6 +388,17 @@ func execC16(c c16Case) (res core.Result) {
 		f := startFollower(w, out, killAt)
 		if len(round.Live) > 0 {
 			runSlice(round.Live)
+			// The primary deletes level-0 files as soon as they are compacted (L0Retention is 1ns in these cases, minutes in
+			// a real deployment exactly so that readers can finish). A follower that listed such a file and finds it gone
+			// when it opens it ends with "no such file"; whether that happens depends on timing only. The user's answer
+			// is to start it again, and so is the harness's: now that the primary is idle the race cannot recur.
+			for tries := 0; tries < 3 && f.ended() && f.got != nil && !f.got.Crashed && c16RaceErr(f.got.Err); tries++ {
+				f.stop()
+				res.Labels = append(res.Labels, "restore-raced-with-retention")
+				killAt = 0
+				f = startFollower(w, out, 0)
+				time.Sleep(20 * time.Millisecond)
+			}
 		}
 		if killAt > 0 {
 			// let it run into the kill point (it may also converge first and never reach call k)
@@ -341,7 +416,12 @@ func execC16(c c16Case) (res core.Result) {
 					r := <-f.reply
 					f.got = &r
 					f.sup.Wait()
-					if v := c16Refusal(w, r, lastSidecar, when); v != nil {
+					if r.Crashed {
+						r.Stderr = "[traced follower: " + f.sup.ExitInfo() + "] " + r.Stderr + f.sup.Stderr.String()
+					}
+					if len(round.Live) > 0 && !r.Crashed && c16RaceErr(r.Err) {
+						res.Labels = append(res.Labels, "restore-raced-with-retention") // see above; restarted below
+					} else if v := c16Refusal(w, r, lastSidecar, when); v != nil {
 						res.Violation = v
 						return res
 					}
@@ -354,7 +434,15 @@ func execC16(c c16Case) (res core.Result) {
 				f = startFollower(w, out, 0)
 			}
 		}
-		if v := converge(f, when); v != nil {
+		v := converge(f, when)
+		for tries := 0; v != nil && tries < 2 && len(round.Live) > 0 && f.ended() && f.got != nil && !f.got.Crashed && c16RaceErr(f.got.Err); tries++ {
+			// same race as above, noticed a little later
+			f.stop()
+			res.Labels = append(res.Labels, "restore-raced-with-retention")
+			f = startFollower(w, out, 0)
+			v = converge(f, when)
+		}
+		if v != nil {
 			r := f.stop()
 			if !r.OK && !r.Crashed && r.Err != "" {
 				if v2 := c16Refusal(w, r, lastSidecar, when); v2 != nil {
@@ -368,8 +456,26 @@ func execC16(c c16Case) (res core.Result) {
 			return res
 		}
 		r := f.stop()
+		if r.Crashed && f.sup != nil {
+			if k, _ := f.sup.Killed(); k {
+				// the kill point was only reached while the follower was shutting down: an ordinary kill, after which it
+				// must resume and converge like after any other
+				kills++
+				if v := observeSidecar(when + " after kill during shutdown"); v != nil {
+					res.Violation = v
+					return res
+				}
+				f = startFollower(w, out, 0)
+				if v := converge(f, when+" (after kill during shutdown)"); v != nil {
+					f.stop()
+					res.Violation = v
+					return res
+				}
+				r = f.stop()
+			}
+		}
 		if r.Crashed {
-			res.Violation = &core.Violation{Oracle: "follower-crashed", Msg: when + ": " + r.Stderr}
+			res.Violation = &core.Violation{Oracle: "follower-crashed", Msg: when + ": [at stop after convergence] " + r.Stderr}
 			return res
 		}
 		if v := compare(when); v != nil {
@@ -383,7 +489,7 @@ func execC16(c c16Case) (res core.Result) {
 // c16Refusal decides whether a follower that ended with an error did so for one of the two documented reasons.
 func c16Refusal(w *lsw.World, r drv.Reply, sidecar ltx.TXID, when string) *core.Violation {
 	if r.Crashed {
-		return &core.Violation{Oracle: "follower-crashed", Msg: when + ": " + r.Stderr}
+		return &core.Violation{Oracle: "follower-crashed", Msg: when + ": [follow command ended by itself] " + r.Stderr}
 	}
 	if r.OK {
 		return nil
@@ -406,6 +512,13 @@ func c16Refusal(w *lsw.World, r drv.Reply, sidecar ltx.TXID, when string) *core.
 		}
 	}
 	return &core.Violation{Oracle: "follower-error", Msg: fmt.Sprintf("%s: follower ended with an error: %s", when, r.Err)}
+}
+
+// c16RaceErr recognises the two ways a restore fails when level-0 retention (1ns in these cases) removes files
+// between the restore's listing of one level and its listing or opening of the next: the file is gone, or no chain
+// can be formed from the inconsistent listing. Only consulted for rounds in which the primary ran concurrently.
+func c16RaceErr(msg string) bool {
+	return strings.Contains(msg, "no such file or directory") || strings.Contains(msg, "transaction not available") || strings.Contains(msg, "non-contiguous")
 }
 
 func TestProp_C16(t *testing.T) {
